@@ -266,6 +266,8 @@ def as_expr(x):
         return const(Fraction(x) if x != int(x) else int(x))
     if isinstance(x, SInt):
         return size_expr(x)
+    if type(x).__module__ == "numpy" and hasattr(x, "item") and getattr(x, "ndim", 1) == 0:  # numpy scalar (np.float32 is not a Python float)
+        return as_expr(x.item())
     raise TypeError(f"cannot make Expr from {type(x)}")
 
 
